@@ -209,7 +209,8 @@ INFO = dict(
     level_text="Bounded symbolic verification: every transformation (trim, cotrim, binarize, separate_start, separate_terminals, nullaryremove with "
                "all flag combinations, unaryremove, unarycycleremove(trim=+-), cnf, rename, renumber, unfold(i,k) for every admissible (i,k), and the "
                "Earley preprocessing chain) runs on grammar skeletons with symbolic rule weights (each may be zero); input and output grammar are BOTH "
-               "evaluated by the independent derivation-sum oracle and z3 proves equality of every string's weight for all weight valuations.",
+               "evaluated by the independent derivation-sum oracle and z3 proves equality of every string's weight for all weight valuations. A second "
+               "family of jobs applies each transformation AFTER other transformations on the same grammar object (cached trims and cached properties).",
     level_note="Cyclic unary/nullable parts by Cramer (pivots > 0 assumed); non-linear nullable recursion is out of bounds. Trusted: CPython, z3, SW proxy, oracle.",
     design_ref="DESIGN.md section 3 C06",
     explanation="Real grammar transformations on symbolic weights; both sides evaluated by the oracle; z3 proves language equality per string for all weights.",
